@@ -23,3 +23,25 @@ func syncFloatPrec(v0, v1 *slip.LongFloat) {
 		_, _, _ = (*big.Float)(v1).Parse(s, 10)
 	}
 }
+
+// intReduce returns the integer as a fixnum if it fits in a fixnum and as a
+// bignum otherwise.
+func intReduce(bi *big.Int) slip.Object {
+	if bi.IsInt64() {
+		return slip.Fixnum(bi.Int64())
+	}
+	return (*slip.Bignum)(bi)
+}
+
+// reduceNumber returns the canonical form of a rational result. A bignum
+// that fits in a fixnum becomes a fixnum and a ratio with a denominator of
+// one becomes an integer. Any other value is returned as is.
+func reduceNumber(v slip.Object) slip.Object {
+	switch tv := v.(type) {
+	case *slip.Bignum:
+		v = intReduce((*big.Int)(tv))
+	case *slip.Ratio:
+		v = ratReduce((*big.Rat)(tv))
+	}
+	return v
+}
